@@ -141,7 +141,11 @@ func TestVerifC12Crypto(t *testing.T) {
 		{
 			N := pk.N
 			for _, nsq := range []int{3, 4} {
-				for cname, cv := range map[string]*big.Int{"0": vfInt(0), "1": vfInt(1), "N-1": new(big.Int).Sub(N, vfInt(1)), "N": new(big.Int).Set(N)} {
+				for _, dv := range []struct {
+					cname string
+					cv    *big.Int
+				}{{"0", vfInt(0)}, {"1", vfInt(1)}, {"N-1", new(big.Int).Sub(N, vfInt(1))}, {"N", new(big.Int).Set(N)}} { // a slice: case numbering must be the same in every shard
+					cname, cv := dv.cname, dv.cv
 					for _, resp := range []int64{0, 1, 999} {
 						for _, sign := range []int{1, -1} {
 							if _, mine := r.Next(); !mine {
